@@ -472,11 +472,11 @@ func (s *seqCtx) fail(op, clause, id, what string) {
 	}
 	key := op + ":" + clause + ":" + loc
 	switch {
+	case opBase == "IterEncodedObjects" && clause == "missing" && altOnly:
+		key = "IterEncodedObjects:missing:alternate-only"
 	case s.o.Excl && s.prefixQueried && (opBase == "IterEncodedObjects" || opBase == "HashesWithPrefix" || opBase == "ForEachObjectHash") &&
 		(clause == "next-error" || clause == "set" || clause == "missing" || clause == "duplicate" || clause == "extra"):
 		key = "exclusive-after-HashesWithPrefix:" + opBase + ":" + clause
-	case opBase == "IterEncodedObjects" && clause == "missing" && altOnly:
-		key = "IterEncodedObjects:missing:alternate-only"
 	case op == "DeltaObject" && clause == "error" && altOnly && strings.Contains(what, "object not found"):
 		key = "DeltaObject:not-found:alternate-only"
 	case op == "HasEncodedObject" && clause == "error" && altOnly && s.o.Excl && strings.Contains(what, "object not found"):
